@@ -138,8 +138,9 @@ class Check:
             "wall_s": round(time.time() - self.t0, 2),
             "violations": len(unlisted),
         }
-        os.makedirs(os.path.join(VERIF, "evidence"), exist_ok=True)
-        with open(os.path.join(VERIF, "evidence", self.pid + ".json"), "w") as fh:
+        evdir = os.environ.get("VERIF_EVIDENCE_DIR") or os.path.join(VERIF, "evidence")
+        os.makedirs(evdir, exist_ok=True)
+        with open(os.path.join(evdir, self.pid + ".json"), "w") as fh:
             json.dump(ev, fh, indent=1)
         print("%s %s: %d rules, %d instances, %d holding, %d known findings, %d unlisted violations, %.1fs" % (
             self.pid, self.tier, len(self.rules), n_inst, n_ok, len(listed), len(unlisted), time.time() - self.t0))
